@@ -28,11 +28,11 @@ def base_jobs(tier):
         if n > 2: return False
         if op == "pop" and n == 0: return False
         if i is not None:
-            if i.startswith("m"): return False
-            i = int(i)
-            if op in ("pop_at", "get_set") and i >= n: return False
-            if op == "push_at" and (i > n or (cont == "List" and i >= max(n, 1))): return False
-            if op == "resize" and False: return False
+            i = -int(i[1:]) if i.startswith("m") else int(i)
+            if op in ("pop_at", "get_set") and not (-n <= i < n): return False          # in-range positive and negative indices
+            if op == "push_at":
+                if cont == "Array" and not (-(n + 1) <= i <= n): return False
+                if cont == "List" and not (i == 0 or -n <= i < n): return False
         return True
     J += [j for j in seqcases.array_jobs("quick", "C04") if in_range(j)]
     return J
